@@ -16,8 +16,8 @@
 (*     builds the criterion list exactly as RouteConfig.Route does (same     *)
 (*     order, same grouping, same wrapper types, same representation         *)
 (*     choice), Meet mirrors every Criterion.Meet method with its            *)
-(*     short-circuits and error propagation, ImplMatch mirrors Route.Match   *)
-(*     and ImplRouter mirrors Router.match.                                  *)
+(*     short-circuits and error propagation, ImplMatchFrom mirrors           *)
+(*     Route.Match and ImplFrom mirrors Router.match.                        *)
 (*  3. AddRoute / Start / GetClient: the API calls (Config.Router iterating  *)
 (*     over cfg.Routes, appending the default route; GetTCPClient /          *)
 (*     GetUDPClient).                                                        *)
@@ -99,8 +99,6 @@ DomHit(e, q) ==
     /\ q.tk = "dom"
     /\ \/ q.ta \in e.doms         \* toDomains: exact names only (DomainLinearMatcher / map above the threshold)
        \/ \E s \in e.sets : \E rule \in DomainSetDef[s].rules : RuleMatches(rule, q.ta)
-\* representation (reported by the driver as coverage, irrelevant for the meaning)
-DomListRep(e) == IF Cardinality(e.doms) + e.pad > MaxLinearDomains THEN "map" ELSE "linear"
 
 (* route.go lookup(): ErrLookup moves on to the next resolver, any other failure is the answer,
    running out of resolvers is an error.  A behaviour b maps each resolver to an address of Addrs,
@@ -113,6 +111,13 @@ LookupFrom(rl, i, b) ==
     ELSE b[rl[i]]
 ResolverList(rc) == IF rc.rs = "" THEN Resolvers ELSE <<rc.rs>>
 Lookup(rc, b) == LookupFrom(ResolverList(rc), 1, b)
+\* why a lookup failed, as router.DialResultCodeFromError classifies it: running out of resolvers and
+\* "no associated addresses" are name-lookup failures ("dns"), everything else is "other"
+RECURSIVE LookupErrFrom(_, _, _)
+LookupErrFrom(rl, i, b) ==
+    IF i > Len(rl) THEN "dns"
+    ELSE IF b[rl[i]] = "errlookup" THEN LookupErrFrom(rl, i + 1, b)
+    ELSE IF b[rl[i]] = "noaddr" THEN "dns" ELSE "other"
 
 -----------------------------------------------------------------------------
 (* 1. The declarative definition (field comments of RouteConfig).            *)
@@ -176,6 +181,15 @@ Decl(rs, d, a) == DeclFrom(rs, d, 1, a, a.b)
 RECURSIVE DecidedAt(_, _, _, _)
 DecidedAt(rs, i, q, b) ==
     IF i > Len(rs) THEN i ELSE IF RouteVal(rs[i], q, b) = "F" THEN DecidedAt(rs, i + 1, q, b) ELSE i
+\* router.DialResultCodeFromError of the answer: 0 success, "EACCES" for a rejection,
+\* "ErrDomainNameLookup" / "ErrOther" for an error according to the lookup that failed in the deciding route
+\* (every lookup of one route asks the same resolvers for the same name)
+ErrClass(rs, a) == LookupErrFrom(ResolverList(rs[DecidedAt(rs, 1, a, a.b)]), 1, a.b)
+DialCode(rs, d, a) ==
+    LET out == Decl(rs, d, a)
+    IN IF out = "rejected" THEN "EACCES"
+       ELSE IF out # "error" THEN "Success"
+       ELSE IF ErrClass(rs, a) = "dns" THEN "ErrDomainNameLookup" ELSE "ErrOther"
 
 -----------------------------------------------------------------------------
 (* Configurations that RouteConfig.Route refuses (route.go:135-162, 220-250, 285-315).  *)
